@@ -147,6 +147,9 @@ pub struct CmdScn {
     /// ... or only this one (set by the minimiser)
     #[serde(default)]
     pub placement: Option<Placement>,
+    /// C13 only: instead of a program history, a timer set/clear history (crux_time keeps process-wide state)
+    #[serde(default)]
+    pub timers: Option<crate::cap::time::TScn>,
 }
 
 #[derive(Clone, Debug, PartialEq, Eq, Serialize, Deserialize)]
@@ -289,14 +292,21 @@ impl Check for CmdCheck {
 
     fn generate(&self, rng: &mut Rng, tier: Tier) -> CmdScn {
         let thorough = tier == Tier::Thorough;
+        let timers = if self.id == "C13" && rng.fork("timers?").chance(1, 10) {
+            Some(crate::cap::time::C18.gen_history(&mut rng.fork("timers"), thorough))
+        } else {
+            None
+        };
         let mut crng = rng.fork("cfg");
         let mut cfg = GenCfg::swarm(&mut crng, thorough);
         let host = *crng.pick(self.hosts);
         cfg.legacy = host.supports_legacy() && crng.chance(1, 2);
+        let xcap = crng.chance(1, 2);
         let mut sc = ScriptCfg {
             max_steps: if thorough { crng.range(10, 120) as u32 } else { crng.range(6, 50) as u32 },
             max_batch: crng.range(1, 3) as u32,
             drops: crng.chance(3, 5),
+            bridge_drops: self.diff_hosts.is_empty(),
             dups: crng.chance(2, 5),
             aborts: true,
             noops: crng.chance(1, 3),
@@ -310,6 +320,9 @@ impl Check for CmdCheck {
             legacy_drops: false,
         };
         (self.tweak)(&mut cfg, &mut sc, &mut crng, host);
+        // a command task using a capability clone: only where the host has capabilities, and not in
+        // runs compared across hosts or with dropped legacy requests (S10 would be hit from a new side)
+        cfg.cap_in_cmd = cfg.legacy && self.diff_hosts.is_empty() && !sc.legacy_drops && xcap;
         if !host.supports_legacy() {
             cfg.legacy = false;
         }
@@ -383,6 +396,7 @@ impl Check for CmdCheck {
             diff_hosts,
             enumerate: self.enumerate,
             placement: None,
+            timers,
         }
     }
 
@@ -391,6 +405,10 @@ impl Check for CmdCheck {
     }
 
     fn execute(&self, s: &CmdScn, cov: &mut Cov) -> Result<RunInfo, Violation> {
+        if let Some(t) = &s.timers {
+            cov.bump("timer_histories");
+            return crate::cap::time::run_scn(t, cov, self.id);
+        }
         let ck = self.checks();
         cov.bump(&format!("host:{:?}", s.scn.host));
         let base = run_scenario_on(&s.scn, s.scn.host, &ck, cov)?;
@@ -492,6 +510,21 @@ impl Check for CmdCheck {
 
     fn shrink(&self, s: &CmdScn) -> Vec<CmdScn> {
         let mut out: Vec<CmdScn> = vec![];
+        if let Some(t) = &s.timers {
+            if !s.scn.steps.is_empty() {
+                // the program part is not executed for a timer history
+                let mut scn = s.scn.clone();
+                scn.steps.clear();
+                scn.drain_from = 0;
+                out.push(CmdScn { scn, ..s.clone() });
+            }
+            out.extend(crate::cap::time::shrink_scn(t).into_iter().map(|t2| CmdScn { timers: Some(t2), ..s.clone() }));
+            return out;
+        }
+        if false {
+            let t = s.timers.as_ref().unwrap();
+            return crate::cap::time::shrink_scn(t).into_iter().map(|t2| CmdScn { timers: Some(t2), ..s.clone() }).collect();
+        }
         if s.enumerate && s.placement.is_none() {
             // pin the failing placement first
             let ck = self.checks();
